@@ -16,6 +16,7 @@ static GLOBAL: seam::alloc::SimAlloc = seam::alloc::SimAlloc;
 fn sim_of(prop: &str) -> &'static str {
     match prop {
         "C14" | "C15" => "stream",
+        "C02" | "C03" => "scan",
         _ => {
             eprintln!("HARNESS: no simulator serves property {}", prop);
             std::process::exit(2);
@@ -28,6 +29,10 @@ macro_rules! with_sim {
         match $name {
             "stream" => {
                 type $s = sims::stream::StreamSim;
+                $body
+            }
+            "scan" => {
+                type $s = sims::scan::ScanSim;
                 $body
             }
             other => {
